@@ -3,9 +3,13 @@ CONSTANTS
   Args <- ScalarArgs
   CanonOf <- ScalarCanonAll
   PyOf <- ScalarPy
-  KeyMode = "pyeq"
-  MaxOps = 5
+  KeyMode = "exact"
+  MaxOps = 8
   MaxPickles = 1
   Label = "scalar"
+INVARIANT UniqueLive
+INVARIANT ExactArgs
+INVARIANT SameWhileAlive
+INVARIANT TableSound
 CONSTRAINT EmitBehaviour
 CHECK_DEADLOCK FALSE
